@@ -202,6 +202,45 @@ def _names_class(atom, f, e, kind):
     return bool(ks) and set(ks) == set(["class:" + kind])
 
 
+def _claim_helper_shape(atom, h):
+    """(index of the name parameter, of the list it is tested against, of the collection it is recorded in) when the private
+    helper h is `if name in taken or name in claimed: raise ...; claimed.append(name)`: at the statement that records the name both
+    membership tests are known to be false, and every normal exit passed it.  None otherwise."""
+    from .logic import known, reach_avoiding
+    cache = atom.__dict__.setdefault("_claim_shapes", {})
+    if h.qualname in cache:
+        return cache[h.qualname]
+    res = None
+    try:
+        g = atom.s.cfg(h)
+        adds = []
+        for n in g.nodes:
+            if n.kind == "stmt" and isinstance(n.ast, ast.Expr) and isinstance(n.ast.value, ast.Call):
+                c = n.ast.value
+                if isinstance(c.func, ast.Attribute) and c.func.attr in ("append", "add") and isinstance(c.func.value, ast.Name) \
+                        and c.func.value.id in h.params and len(c.args) == 1 and isinstance(c.args[0], ast.Name) and c.args[0].id in h.params:
+                    adds.append((n, c.func.value.id, c.args[0].id))
+        if len(adds) == 1:
+            n, claimed, name = adds[0]
+            others = [p0 for p0 in h.params if p0 not in (claimed, name)]
+            for taken in others:
+                def classify(lf, taken=taken):
+                    if isinstance(lf, ast.Compare) and len(lf.ops) == 1 and isinstance(lf.ops[0], ast.In) and isinstance(lf.left, ast.Name) \
+                            and lf.left.id == name and isinstance(lf.comparators[0], ast.Name):
+                        return {taken: "T", claimed: "S"}.get(lf.comparators[0].id)
+                    return None
+                if known(g, n, classify, lambda a: not a["T"], ["T"]) and known(g, n, classify, lambda a: not a["S"], ["S"]) \
+                        and not reach_avoiding(g, g.entry, g.exit, lambda s0, k0, d0: d0.id == n.id, skip_kinds=("exc",)) \
+                        and not any(name in __import__("odmlsa.dataflow", fromlist=["node_defs"]).node_defs(m) or
+                                    claimed in __import__("odmlsa.dataflow", fromlist=["node_defs"]).node_defs(m) for m in g.nodes if m.kind != "entry"):
+                    res = (h.params.index(name), h.params.index(taken), h.params.index(claimed))
+                    break
+    except Exception:
+        res = None
+    cache[h.qualname] = res
+    return res
+
+
 def _precheck_loop(atom, f, first, second_iter):
     """obligations of the PRECHECKED contract on the first loop of an extend method (see the contract text).
     Returns the set of kinds whose elements are known to carry names that are new to the child list of that
@@ -221,14 +260,29 @@ def _precheck_loop(atom, f, first, second_iter):
     name_txt = "%s._name" % y      # getter-normalised text
     ax = atom.an.alias_expander(f) if hasattr(atom.an, "alias_expander") else None
 
+    claimed_by_helper = {}      # node id -> child list expression the helper tests the name against
+
     def add_of(n):
-        """(collection local) when node n is `S.append(y.name)` / `S.add(y.name)`"""
+        """(collection local) when node n is `S.append(y.name)` / `S.add(y.name)`, or a call of a claim helper (see
+        _claim_helper_shape) that is handed y.name, a child list and the local collection S"""
         if n.kind != "stmt" or not isinstance(n.ast, ast.Expr) or not isinstance(n.ast.value, ast.Call):
             return None
         c = n.ast.value
         if isinstance(c.func, ast.Attribute) and c.func.attr in ("append", "add") and isinstance(c.func.value, ast.Name) \
                 and len(c.args) == 1 and not c.keywords and norm(c.args[0]) == name_txt:
             return c.func.value.id
+        from .symtext import _is_private_helper_call
+        h = _is_private_helper_call(f, c)
+        shape = _claim_helper_shape(atom, h) if h is not None and not c.keywords else None
+        if shape is not None:
+            i_name, i_taken, i_claimed = shape
+            off = 1 if (h.has_self and isinstance(c.func, ast.Attribute)) else 0
+            args = c.args
+            if max(i_name, i_taken, i_claimed) - off < len(args) and min(i_name, i_taken, i_claimed) - off >= 0:
+                a_name, a_taken, a_claimed = args[i_name - off], args[i_taken - off], args[i_claimed - off]
+                if norm(a_name) == name_txt and isinstance(a_claimed, ast.Name):
+                    claimed_by_helper[n.id] = a_taken
+                    return a_claimed.id
         return None
 
     body = set()
@@ -297,7 +351,19 @@ def _precheck_loop(atom, f, first, second_iter):
                     if isinstance(r, ast.Attribute) and isinstance(r.value, ast.Name) and r.value.id == me and r.attr in lists:
                         return "C"
                 return None
-            if known(g, n, classify, lambda a: a["K"], ["K"], start=hd) and known(g, n, classify, lambda a: not a["C"], ["C"], start=hd) \
+            if n.id in claimed_by_helper:
+                # the helper itself refuses a name found in the list it is handed and in the collection: that list must be
+                # the child list of the kind known at the call
+                r = claimed_by_helper[n.id]
+                if isinstance(r, ast.Name) and ax is not None:
+                    try:
+                        r = ax.expand(r, n)
+                    except Exception:
+                        pass
+                c_ok = isinstance(r, ast.Attribute) and isinstance(r.value, ast.Name) and r.value.id == me and r.attr in lists
+                if c_ok and known(g, n, classify, lambda a: a["K"], ["K"], start=hd):
+                    found = kind
+            elif known(g, n, classify, lambda a: a["K"], ["K"], start=hd) and known(g, n, classify, lambda a: not a["C"], ["C"], start=hd) \
                     and known(g, n, classify, lambda a: not a["S"], ["S"], start=hd):
                 found = kind
         if found is None or kinds.get(coll, found) != found or (found in kinds.values() and coll not in kinds):
@@ -347,13 +413,39 @@ def extend_names_prechecked(atom, f, node, site):
         return False
     i2 = tops.index(second)
     firsts = [st for st in tops[:i2] if isinstance(st, ast.For)]
-    if not firsts:
-        return False
-    first = firsts[-1]
-    between = tops[tops.index(first) + 1:i2]
-    if any(isinstance(x, (ast.Call, ast.Attribute)) for st in between for x in ast.walk(st)):
-        return False
-    kinds = _precheck_loop(atom, f, first, p)
+    kinds = set()
+    if firsts:
+        first = firsts[-1]
+        between = tops[tops.index(first) + 1:i2]
+        if any(isinstance(x, (ast.Call, ast.Attribute)) for st in between for x in ast.walk(st)):
+            return False
+        kinds = _precheck_loop(atom, f, first, p)
+    else:
+        # the checking pass may live in a private helper that is called with the same iterable right before the second loop
+        from .symtext import _is_private_helper_call
+        calls = [(i, st) for i, st in enumerate(tops[:i2]) if isinstance(st, ast.Expr) and isinstance(st.value, ast.Call)
+                 and any(isinstance(a, ast.Name) and a.id == p for a in st.value.args)]
+        for i, st in reversed(calls):
+            h = _is_private_helper_call(f, st.value)
+            if h is None or h is f:
+                continue
+            if any(isinstance(x, (ast.Call, ast.Attribute)) for st2 in tops[i + 1:i2] for x in ast.walk(st2)):
+                return False
+            hoff = 1 if (h.has_self and isinstance(st.value.func, ast.Attribute)) else 0
+            idx = [j for j, a in enumerate(st.value.args) if isinstance(a, ast.Name) and a.id == p]
+            if not idx or idx[0] + hoff >= len(h.params):
+                continue
+            hp = h.params[idx[0] + hoff]
+            if any(isinstance(t, ast.Name) and t.id == hp and isinstance(t.ctx, ast.Store) for t in ast.walk(h.node)):
+                continue
+            # the helper must be the method's own helper on the same object (its self is our self) or a plain function
+            if h.has_self and not (isinstance(st.value.func, ast.Attribute) and _is_self(f, st.value.func.value)):
+                continue
+            hloops = [x for x in h.node.body if isinstance(x, ast.For)]
+            if len(hloops) != 1 or any(isinstance(x, (ast.Return,)) for x in ast.walk(h.node) if x is not h.node):
+                continue
+            kinds = _precheck_loop(atom, h, hloops[0], hp)
+            break
     want = {"BaseSection"} if f.short == "base.Sectionable.extend" else {"BaseSection", "BaseProperty"}
     return kinds == want
 
